@@ -31,7 +31,11 @@ class C14(Prop):
         s = C.read_jsonl(p)
         if rc != 0 or not s:
             raise RuntimeError("C14 shim harness did not run: rc=%s\n%s" % (rc, out[-2000:]))
-        return {"banner": b, "shim": [r for r in s if r.get("kind") == "shim"], "script": [r for r in s if r.get("kind") == "script"]}
+        rc, out, p, dt = C.go_test_overlay(ctx.work, "./agent/banner/", "TestVerifC14Interim$", OV_BANNER, "banner_interim.jsonl", ctx.seed, ctx.tier, timeout=600)
+        interim = [r for r in C.read_jsonl(p) if r.get("kind") == "interim"]
+        if rc != 0 or not interim:
+            raise RuntimeError("C14 interim-response harness did not run: rc=%s\n%s" % (rc, out[-2000:]))
+        return {"banner": b, "shim": [r for r in s if r.get("kind") == "shim"], "script": [r for r in s if r.get("kind") == "script"], "interim": interim}
 
     @staticmethod
     def _vals(fields, name):
@@ -50,6 +54,20 @@ class C14(Prop):
 
     def oracle(self, ctx, obs):
         res = []
+        for r in obs.get("interim") or []:
+            bk = r["backend"]
+            rp = {"driver": "TestVerifC14Interim: client -> banner.Proxy -> httputil.ReverseProxy -> raw backend answering %s then %s %s" % (bk.get("interim") or "nothing", bk["status"], bk["content_type"]), "observed": r}
+            sig = "interim" if bk.get("interim") else "no-interim"
+            if r.get("err"):
+                res.append(("banner:interim-request-failed", r["err"], rp))
+                continue
+            frameable = bk["status"] == 200 and "text/html" in bk["content_type"]
+            if r["status"] != bk["status"]:
+                res.append(("banner:status-changed:" + sig, "the backend answered %s (after informational %s), the client received %s" % (bk["status"], bk.get("interim"), r["status"]), rp))
+            elif frameable and not r["body_has_banner"]:
+                res.append(("banner:frame-missing:" + sig, "a 200 HTML page requested by a browser was not framed", rp))
+            elif not frameable and not r["body_is_backends"]:
+                res.append(("banner:non-html-altered:" + sig, "a response that is not a 200 HTML document did not arrive as the backend sent it", rp))
         for r in obs["banner"]:
             back = r["backend"]
             o = self._observed_outcome(r)
